@@ -2,6 +2,7 @@
 package main
 
 import (
+	"encoding/json"
 	"fmt"
 	"os"
 	"runtime/debug"
@@ -38,9 +39,13 @@ func main() {
 		os.Exit(3)
 	}
 	if tier == "--replay" {
-		if c.Replay == nil || len(os.Args) < 4 {
-			fmt.Printf("INCONCLUSIVE property=%s reason=replay not supported\n", id)
-			os.Exit(3)
+		if len(os.Args) < 4 {
+			fmt.Println("usage: vcheck <Cxx> --replay <file>")
+			os.Exit(2)
+		}
+		if c.Replay == nil {
+			// generic replay: the case list is determined by (seed, tier); re-run that workload and look for the recorded signature
+			os.Exit(genericReplay(id, c, os.Args[3]))
 		}
 		r := mon.New(id, c.Level, "quick")
 		if err := c.Replay(r, os.Args[3]); err != nil {
@@ -64,4 +69,39 @@ func main() {
 		c.Run(r)
 	}()
 	os.Exit(r.Finish(c.Rule))
+}
+
+func genericReplay(id string, c *props.Check, path string) int {
+	b, err := os.ReadFile(path)
+	if err != nil {
+		fmt.Println("replay:", err)
+		return 2
+	}
+	var rec struct {
+		Signature string `json:"signature"`
+		Message   string `json:"message"`
+		Seed      int64  `json:"seed"`
+		Tier      string `json:"tier"`
+	}
+	if err := json.Unmarshal(b, &rec); err != nil || rec.Signature == "" {
+		fmt.Println("replay: not a replay file written by this harness")
+		return 2
+	}
+	fmt.Printf("replay: recorded violation %s (seed %d, tier %s): %s\n", rec.Signature, rec.Seed, rec.Tier, rec.Message)
+	fmt.Println("replay: the concrete failing case is in the \"case\" member of the file; re-running the workload of that seed and tier against the current tree")
+	os.Setenv("VERIF_SEED", fmt.Sprint(rec.Seed))
+	if rec.Tier == "" {
+		rec.Tier = "quick"
+	}
+	r := mon.New(id, c.Level, rec.Tier)
+	func() {
+		defer func() { recover() }()
+		c.Run(r)
+	}()
+	if r.HasViolation(rec.Signature) {
+		fmt.Printf("VIOLATION property=%s replay=%s\n  reproduced: %s\n", id, path, rec.Signature)
+		return 1
+	}
+	fmt.Println("replay: the recorded violation did not reappear on the current tree")
+	return 0
 }
